@@ -4,6 +4,14 @@ import json, os
 V = os.path.dirname(os.path.dirname(os.path.abspath(__file__)))
 ALL = ["C%02d" % i for i in range(1, 20)]
 CHECKS = {
+ "C07": dict(level="model_checking", ref="5/C07",
+   text="spec/EslCodec.tla models the decoder as a step machine over abstract streams; TLC checks WellFormedAccepted/AcceptSound on every well-formed stream of the bounded language and emits each with its exact lists; every one is concretised, decoded by the real ReadSignatureDatabase, compared entry by entry and re-encoded byte-identically. The converse (databases reachable through library operations) is decided by replaying TLC-generated SigDb histories with a recode after every step and validating the recorded events with SigDbTrace. Repository fixtures are projected to abstract cases and judged by TLC (observation config).",
+   note="Trusted: TLC, the harness's independent ESL writer/reader, SHA-256 identity of filler bytes. hdrsize != 0 and zero-count lists are MAY. Exhaustive within: <=2 (quick) / <=3 (thorough) lists of 18 shapes.",
+   technique="TLA+ decoder spec model-checked with TLC; TLC-enumerated streams executed on the code; TLC trace validation of recode events"),
+ "C08": dict(level="model_checking", ref="5/C08",
+   text="TLC explores the decoder step machine of spec/EslCodec.tla over every (stream, filler, cut) case of the near-miss space (field relations of ListSize/HeaderSize/SignatureSize, unsupported types, truncation points, trailing bytes, good neighbours), checks AcceptSound and NoSilentTruncation as invariants and emits the three-valued expectation of each case; every case is concretised and decoded by the real code, which must reject what the specification rejects and decode faithfully what it accepts. Byte-level mutations of real fixtures are projected back to abstract cases and judged by TLC.",
+   note="Trusted: TLC, harness concretiser + independent reader (cross-checked against each other per case). MAY zone: hdrsize != 0, zero-count lists, externally-managed size != 17. Quick: boundary cut points (~117k cases); thorough: every cut point (~2.3M cases).",
+   technique="TLA+ decoder spec model-checked with TLC; TLC-enumerated cases with expectations executed on the code; observations judged by TLC"),
  "C09": dict(level="model_checking", ref="5/C09",
    text="TLC model-checks spec/SigDb.tla (WellFormed invariant, OthersKept/ErrorsChangeNothing/AppendAddsOne/RemoveDropsOne action properties) over a bounded universe; every operation history TLC generates (exhaustive to depth 2 quick / 3 thorough, -simulate and seeded random histories beyond) is replayed on the real SignatureDatabase and the recorded events (result class + independent projection of Bytes()) are validated by TLC against spec/SigDbTrace.tla, which evaluates the list equations after every step.",
    note="Trusted: TLC, the independent ESL reader in harness/cmd/worker/eslproj.go, type-disjoint data universes. Exhaustive only within the bounded universe (2 owners, 10 data values, 4 types) and depth; deeper histories are sampled.",
